@@ -35,15 +35,21 @@ inductive OpErr where
 `EVQEIndividual.__eq__` is *hash* equality and `__hash__` hashes `(n_qubits, layers, parameter_values)`; the
 dataclass hash of a gate hashes its field tuple only, not its class.  So two individuals compare equal (and are the
 same `dict` key) iff their field tuples agree when the gate classes are ignored — e.g. a layer and its mirror image
-(`ControlledRotationGate(0, 1), ControlGate(1, 0)` vs `ControlGate(0, 1), ControlledRotationGate(1, 0)`) collide.
-Assumed: Python's tuple/int/float hashing is injective on the keys that occur in a run. -/
+(`ControlledRotationGate(0, 1), ControlGate(1, 0)` vs `ControlGate(0, 1), ControlledRotationGate(1, 0)`) collide, and so do
+individuals whose parameter values differ only by hash-equal floats (`valHash`).
+Assumed: Python's tuple hashing is injective on the (class-free, value-hashed) keys that occur in a run. -/
 
 def gateKey : Gate → List Nat
   | .id q | .rot q => [q]
   | .ctrl q c | .crot q c => [q, c]
 
+/-- hash class of a parameter value: the harness numbers the floats of a run such that `token / 1024` coincides for two
+floats exactly when CPython hashes them alike (`hash(-1.0) == hash(-2.0)`, `x` vs `x + k·(2^61 − 1)`), so value collisions are
+part of the model, too -/
+def valHash (v : Val) : Val := v / 1024
+
 def indivKey (x : Indiv) : Nat × List (Nat × List (List Nat)) × List Val :=
-  (x.nQubits, x.layers.map (fun l => (l.nQubits, l.gates.map gateKey)), x.values)
+  (x.nQubits, x.layers.map (fun l => (l.nQubits, l.gates.map gateKey)), x.values.map valHash)
 
 /-- `individual == other` / same dict key -/
 def pyEq (a b : Indiv) : Bool := indivKey a == indivKey b
